@@ -61,6 +61,7 @@ import Avt.Lemmas.C11ParserNorm
 import Avt.Lemmas.C11Witness
 import Avt.Lemmas.C11Blank
 import Avt.Lemmas.C11Steps3
+import Avt.Lemmas.C11Sound3
 
 namespace Avt.Props.C11
 open Avt Avt.Spec.C11 Avt.Lemmas.C11
@@ -311,6 +312,133 @@ theorem C11_primary_not_excepted (t : Terminal) (hprim : t.activeBufferType = .p
   rcases hinside with h | h
   · exact Or.inl h
   · exact Or.inr ⟨by omega, by omega⟩
+
+
+/-! ### normal-form soundness: every function, every character, whole continuations -/
+
+/-- **normal-form soundness, EVERY control function** (print / REP, cursor movement, erase / insert /
+    delete, scrolling, SGR, modes, tab stops, save / restore, the alternate-screen switches, RIS,
+    XTWINOPS): two terminals satisfying the invariant, neither resized while on the alternate screen
+    (`Pre`), with equal normal forms are mapped to terminals with equal normal forms, and panic together.
+    What the families read of `normT`: print / scroll / edit — view, size, cursor, pen, margins, modes
+    (through the closed forms `printSpec`, `scrollCmdSpec`, `editSpec` of C04 / C06 / C07); entering the
+    alternate screen — additionally the CLAMPED parked context; leaving it — the parked primary's view
+    and the parked context, which under `Pre` is inside the screen.  Nothing reads scrollback, limits,
+    trim flag, dirty flags (only their number), or the parked ALTERNATE buffer. -/
+theorem C11_norm_sound_step (f : Function) (u v : Terminal) (hu : TInv u = true) (hv : TInv v = true)
+    (gu : resizedOnAlt u = false) (gv : resizedOnAlt v = false) (e : normT u = normT v) :
+    (u.execute f).map normT = (v.execute f).map normT :=
+  norm_sound_execute_all f u v ⟨hu, gu⟩ ⟨hv, gv⟩ e
+
+/-- the invariant of `C11_norm_sound_step` is kept by every function -/
+theorem C11_norm_sound_step_inv {t t' : Terminal} {f : Function} (h : TInv t = true)
+    (g : resizedOnAlt t = false) (hs : t.execute f = some t') :
+    TInv t' = true ∧ resizedOnAlt t' = false :=
+  pre_execute ⟨h, g⟩ hs
+
+/-- **normal-form soundness, one character, every parser state and every emitted function** -/
+theorem C11_norm_sound_feed (a b : Vt) (ha : Inv a = true) (hb : Inv b = true)
+    (ra : PRegOK a.parser = true) (rb : PRegOK b.parser = true)
+    (ga : resizedOnAlt a.terminal = false) (gb : resizedOnAlt b.terminal = false)
+    (h : normD a = normD b) (c : Nat) :
+    (a.feed c).map normD = (b.feed c).map normD :=
+  norm_sound_feed_all a b (agree_of ⟨ha, ra, ga⟩ ⟨hb, rb, gb⟩ h) (Good.pre ⟨ha, ra, ga⟩) (Good.pre ⟨hb, rb, gb⟩)
+    (congrArg Vt.terminal h) c
+
+/-- **normal-form soundness, whole continuations**, under the contract `PRegOKStable` (the parser's
+    register-shape invariant is preserved by every character; checked on the implementation by the
+    C11 oracle): `Good` states (invariant, register shape, not resized on the alternate screen) with
+    equal normal forms have equal normal forms after ANY input, and panic together. -/
+theorem C11_norm_sound_feedAll (hst : PRegOKStable) (xs : List Nat) (a b : Vt) (ha : Good a) (hb : Good b)
+    (h : normD a = normD b) : (a.feedAll xs).map normD = (b.feedAll xs).map normD :=
+  norm_sound_feedAll hst xs a b ha hb h
+
+/-! ### the corrected full statements -/
+
+/-- **C11, restore half, corrected**: `C11_dump_full` with the size bound of finding KF6 -/
+def C11_dump_full' : Prop :=
+  ∀ s : Vt, Lemmas.C11.Reach s → resizedOnAlt s.terminal = false → cursorStepFaithful s.terminal = true →
+    sizeExceedsU16 s.terminal = false →
+    ∃ r, restoreOf s = some r ∧ normD r = normD s
+
+/-- **C11, continuation half, corrected**: `C11_norm_sound` is FALSE for states resized while on the
+    alternate screen (leaving it reflows the parked primary, which reads its scrollback); with the
+    exception the property names on both sides it is `C11_norm_sound_feed` -/
+def C11_norm_sound' : Prop :=
+  ∀ a b : Vt, Inv a = true → Inv b = true → PRegOK a.parser = true → PRegOK b.parser = true →
+    resizedOnAlt a.terminal = false → resizedOnAlt b.terminal = false → normD a = normD b →
+    ∀ c : Nat, (a.feed c).map normD = (b.feed c).map normD
+
+/-- the corrected continuation half is a theorem -/
+theorem C11_norm_sound'_holds : C11_norm_sound' :=
+  fun a b ha hb ra rb ga gb h c => C11_norm_sound_feed a b ha hb ra rb ga gb h c
+
+/-! ### end to end -/
+
+theorem good_new (cols rows : Nat) (hc : 1 ≤ cols) (hr : 1 ≤ rows) :
+    ∃ f, Vt.new cols rows none = some f ∧ Good f := by
+  obtain ⟨v, hv, hi⟩ := Props.C02.C02_init none hc hr
+  refine ⟨v, hv, hi, ?_, ?_⟩
+  · simp only [Vt.new, new_eq_freshT cols rows none hr, Option.map_some, Option.some.injEq] at hv
+    subst hv
+    show PRegOK Parser.new = true
+    decide
+  · simp only [Vt.new, new_eq_freshT cols rows none hr, Option.map_some, Option.some.injEq] at hv
+    subst hv; rfl
+
+/-- the restored terminal is `Good` -/
+theorem good_restore (hst : PRegOKStable) {s r : Vt} (hc : 1 ≤ s.terminal.cols) (hr : 1 ≤ s.terminal.rows)
+    (h : restoreOf s = some r) : Good r := by
+  unfold restoreOf at h
+  cases hd : s.dump with
+  | none => simp [hd] at h
+  | some d =>
+    obtain ⟨f, hf, gf⟩ := good_new s.terminal.cols s.terminal.rows hc hr
+    simp only [hd, hf, Vt.feedStr] at h
+    cases hfa : f.feedAll d with
+    | none => simp [hfa] at h
+    | some v =>
+      simp only [hfa, Option.map_some, Option.some.injEq] at h
+      subst h
+      have gv := Good.feedAll hst d gf hfa
+      obtain ⟨v', ch, e1, i1, _⟩ := Props.Closed.C02_feedStr d gf.inv
+      simp only [Vt.feedStr, hfa, Option.map_some, Option.some.injEq] at e1
+      exact gv.finish (by rw [e1]; exact i1)
+
+/-- **C11 END TO END for the primary screen with default saved contexts**: under the hypotheses of
+    `C11_dump_primary_partial` (and the contract `PRegOKStable`), `dump()` fed to a fresh terminal of the
+    same size yields a terminal that shows the same through the public API — view cells, pens, wrap
+    marks, cursor, cursor-key mode — now and after EVERY continuation input (all control functions,
+    including screen switches and RIS, completing a cut escape sequence), and the two panic together. -/
+theorem C11_primary_end_to_end (hst : PRegOKStable) (s : Vt) (hinv : Inv s = true) (hreg : PRegOK s.parser = true)
+    (hprim : s.terminal.activeBufferType = .primary)
+    (hs : s.terminal.savedCtx.isDefault = true) (ha : s.terminal.alternateSavedCtx.isDefault = true)
+    (hcells : viewOKb s.terminal.buffer.view = true)
+    (hpens : (penOKb s.terminal.pen && penOKb s.terminal.savedCtx.pen && penOKb s.terminal.alternateSavedCtx.pen) = true)
+    (hcols : s.terminal.cols < 65535) (hrows : s.terminal.rows ≤ 65535)
+    (hinside : s.terminal.originMode = false
+      ∨ (s.terminal.topMargin ≤ s.terminal.cursor.row ∧ s.terminal.cursor.row ≤ s.terminal.bottomMargin)) :
+    ∃ r, restoreOf s = some r ∧ normD r = normD s
+      ∧ ∀ xs : List Nat, (s.feedAll xs).map obs = (r.feedAll xs).map obs := by
+  obtain ⟨r, h1, h2⟩ := C11_dump_primary_partial s hinv hreg hprim hs ha hcells hpens hcols hrows hinside
+  have hi := hinv
+  simp only [Inv, Bool.and_eq_true] at hi
+  have ht := TOK.of_TInv hi.2
+  have gs : Good s := ⟨hinv, hreg, by simp [resizedOnAlt, hprim]⟩
+  have gr : Good r := good_restore hst ht.c1 ht.r1 h1
+  refine ⟨r, h1, h2, fun xs => ?_⟩
+  have := C11_norm_sound_feedAll hst xs s r gs gr h2.symm
+  cases hsa : s.feedAll xs with
+  | none =>
+    cases hra : r.feedAll xs with
+    | none => rfl
+    | some b' => simp [hsa, hra] at this
+  | some a' =>
+    cases hra : r.feedAll xs with
+    | none => simp [hsa, hra] at this
+    | some b' =>
+      simp only [hsa, hra, Option.map_some, Option.some.injEq] at this ⊢
+      exact C11_norm_obs a' b' this
 
 /-! ### the known findings: negations on the witnesses (kernel evaluation of the whole model) -/
 
